@@ -1,7 +1,7 @@
 (* Single entry point of the extracted model runner: (tag arg) -> result. *)
 From Coq Require Import List NArith ZArith Bool String.
 Import ListNotations.
-From Indi Require Import Base.Sx Msg.Equality Router.Run Driver.SwitchRun Xml.Lex Msg.Run Num.Run Buffer.Run Driver.Run Client.Run Async.Run Async.WaitRun.
+From Indi Require Import Base.Sx Msg.Equality Router.Run Driver.SwitchRun Xml.Lex Msg.Run Num.Run Buffer.Run Driver.Run Client.Run Async.Run Async.WaitRun System.Run.
 
 Definition dispatch (x : sx) : sx :=
   match x with
@@ -22,6 +22,7 @@ Definition dispatch (x : sx) : sx :=
       else if str_eqb t (s2l "client") then run_client arg
       else if str_eqb t (s2l "send") then run_send arg
       else if str_eqb t (s2l "wait") then run_wait arg
+      else if str_eqb t (s2l "system") then run_system arg
       else tag "UNKNOWN-ENTRY"
   | _ => bad_input
   end.
